@@ -38,4 +38,6 @@ func init() {
 	alias("C18", "R8", "C08", "R9", "after an operator rollback the state store must still produce the validator set of every retained height")
 	alias("C20", "R7", "C10", "R3", "a relayed tx or query value is only as good as the Merkle proof check behind it: a proof verifies only for a valid (index, total, path) shape")
 	alias("C20", "R8", "C06", "R1", "Block and BlockByHash tie the relayed block body to the verified header through Block.ValidateBasic: its content-hash checks must hold for every body, also an empty one")
+	alias("C05", "R14", "C18", "R5", "after a crash inside the state store's save the node must go on committing: the state record is written last, so a state on disk always has its validator and parameter records")
+	alias("C06", "R11", "C07", "R5", "a block built by a correct proposer passes validation only if the last commit it carries verifies: commit construction must agree with commit verification")
 }
